@@ -326,8 +326,9 @@ impl BinArchive {
         
         text.sort_by(|a, b| a.0.cmp(b.0));
         let mut ptr_data_pairs: IndexMap<usize, Vec<u32>> = IndexMap::new();
-        let text_start =
-            self.data.len() + (self.pointers.len() + self.text.len() + raw_labels.len()) * 4;
+        let text_start = self.data.len()
+            + raw_cstrings.len()
+            + (raw_pointers.len() + self.text.len() + raw_labels.len()) * 4;
         for (address, string) in text {
             let offset = add_text(&mut raw_text, &mut raw_text_offsets, string)?;
             let text_address = text_start + offset;
